@@ -361,8 +361,11 @@ func (x *router) dispatchToRoutees(ctx *ReceiveContext, msg any, routees []*PID)
 func (x *router) routeByStrategy(ctx *ReceiveContext, msg any, routees []*PID) {
 	switch x.routingStrategy {
 	case RoundRobinRouting:
-		n := atomic.AddUint32(&x.roundRobinNext, 1)
-		routee := routees[(int(n)-1)%len(routees)]
+		// keep the cursor reduced modulo the pool size so the rotation stays
+		// cyclic and in range where an ever-growing counter would wrap around
+		idx := atomic.LoadUint32(&x.roundRobinNext) % uint32(len(routees))
+		atomic.StoreUint32(&x.roundRobinNext, idx+1)
+		routee := routees[idx]
 		ctx.Tell(routee, msg)
 	case RandomRouting:
 		routee := routees[rand.IntN(len(routees))] //nolint:gosec
